@@ -132,7 +132,7 @@ def _dot(ctx, p, rng):
         if cdt == 'complex128':
             return c + 1j * rng.normal(size=c.shape)
         return c.copy()
-    layout = gen.LAYOUTS[int(rng.integers(len(gen.LAYOUTS)))]
+    layout = gen.LAYOUTS[int(rng.integers(5))]
     if kinds == 'UA':
         Bc = const(b); b = lin.lift(Bc.astype(complex if np.iscomplexobj(Bc) else float), D, P)
     if kinds == 'AU':
